@@ -1,4 +1,5 @@
 import collections
+import os
 import struct
 import sys
 
@@ -13,6 +14,11 @@ from .types import Instruction, Label, Assignment, InstructionPointer, WordList,
 from . import reports
 
 
+# Verification hook (off unless PDPY11_VERIF=1): records, for every statement
+# that contributes bytes, the address it was given and the chunk it produced.
+VERIF_TRACE = os.environ.get("PDPY11_VERIF") == "1"
+
+
 class Compiler:
     def __init__(self, output_charset="bk"):
         self.symbols = CaseInsensitiveDict()
@@ -23,6 +29,8 @@ class Compiler:
         self.next_internal_symbol_prefix = 1
         self.times_file_compiled = collections.defaultdict(int)
         self.internal_prefix_to_state = {}
+        if VERIF_TRACE:
+            self._verif_trace = []
 
 
     def compile_file(self, file, start, link_base):
@@ -53,6 +61,8 @@ class Compiler:
                 state = {**state, "insn": insn, "emit_address": addr, "local_symbol_prefix": local_symbol_prefix}
                 if isinstance(insn, Instruction):
                     chunk = self.compile_insn(insn, state)
+                    if VERIF_TRACE and chunk is not None:
+                        self._verif_trace.append((insn, addr, chunk, local_symbol_prefix))
                     if chunk is not None:
                         data += chunk
                         if isinstance(chunk, BaseDeferred):
@@ -62,6 +72,8 @@ class Compiler:
 
                 elif isinstance(insn, WordList):
                     chunk = self.compile_word_list(insn, insn.words, state)
+                    if VERIF_TRACE:
+                        self._verif_trace.append((insn, addr, chunk, local_symbol_prefix))
                     data += chunk
                     if isinstance(chunk, BaseDeferred):
                         addr += chunk.length()
@@ -106,6 +118,8 @@ class Compiler:
                                     return b"\x00" * length
 
                                 chunk = Deferred[bytes](fn)
+                                if VERIF_TRACE:
+                                    self._verif_trace.append((insn, addr, chunk, local_symbol_prefix))
                                 data += chunk
                                 if isinstance(chunk, BaseDeferred):
                                     addr += chunk.length()
